@@ -72,19 +72,31 @@ def run(E: Engine, rep: Report, tier: str) -> dict:
     chm = P.module("pulser.channels.base_channel")
     eig = P.fold(chm, chm.assigns["EIGENSTATES"])
     w = E.fn("pulser_simulation.qutip_result.QutipResult._weights")
+    from .symutil import finite_maps
+
+    Sw = S(E, w)
     one = None
-    for n in own_nodes(w):
-        if isinstance(n, (ast.Assign, ast.AnnAssign)) and norm(n.targets[0] if isinstance(n, ast.Assign) else n.target) == "one_state_dict" and isinstance(n.value, ast.Dict):
-            one = {k.value: v.value for k, v in zip(n.value.keys, n.value.values) if isinstance(k, ast.Constant) and isinstance(v, ast.Constant)}
+    for l in Sw.log:
+        for t_ in (l.value, l.target):
+            if t_ is None:
+                continue
+            for subj, tab in finite_maps(t_):
+                if sym.contains(subj, sym.Pattern("self.meas_basis").term) and tab and all(v[0] == "const" for v in tab.values()):
+                    one = {k: v[1] for k, v in tab.items()}
     if one is None:
-        raise AnalysisError("anchor: one_state_dict not found in QutipResult._weights")
+        raise AnalysisError("anchor: the measurement-basis -> one-state table of QutipResult._weights was not found")
     want = {"ground-rydberg": "r", "digital": "h", "XY": "d"}
-    rep.check(one == want, "TABLE", "QutipResult._weights|one_state_dict", f"{one}", f"one_state_dict = {one}; the documented convention is {want}", E.where(w))
+    rep.check(one == want, "TABLE", "QutipResult._weights|one_state_dict", f"{one}", f"one-state table = {one}; the documented convention is {want}", E.where(w))
     ios = E.fn("pulser.backend.state.State.infer_one_state")
+    Sio = S(E, ios)
     table = {}
-    for n in own_nodes(ios):
-        if isinstance(n, ast.If) and isinstance(n.test, ast.Compare) and isinstance(n.test.comparators[0], ast.Set) and isinstance(n.body[0], ast.Return) and isinstance(n.body[0].value, ast.Constant):
-            table[frozenset(e.value for e in n.test.comparators[0].elts if isinstance(e, ast.Constant))] = n.body[0].value.value
+    for subj, tab in finite_maps(Sio.ret_full if getattr(Sio, "ret_full", None) is not None else Sio.ret):
+        if sym.contains(subj, sym.Pattern("self.eigenstates").term):
+            for k, v in tab.items():
+                if isinstance(k, frozenset) and v[0] == "const":
+                    table[k] = v[1]
+    if not table:
+        raise AnalysisError("anchor: the eigenstates -> one-state table of State.infer_one_state was not found")
     for b, st in eig.items():
         got = table.get(frozenset(st))
         rep.check(got == want[b], "TABLE", f"State.infer_one_state|{b}", f"{sorted(st)} -> {got}", f"infer_one_state maps eigenstates {sorted(st)} to '{got}', the convention for {b} is '{want[b]}'", E.where(ios))
@@ -121,28 +133,25 @@ def run(E: Engine, rep: Report, tier: str) -> dict:
     s1 = E.fn("pulser_simulation.simresults.CoherentResults.sample_state")
     s2 = E.fn("pulser_simulation.qutip_state.QutipState.sample")
     ab1 = abstractor(E.flow(s1))
-    def rate_name(f, e: ast.AST) -> str:
-        """Name of the rate an expression denotes: a parameter name, or the constant key of `x = d["key"]`."""
-        if isinstance(e, ast.Name):
-            for n in own_nodes(f):
-                if isinstance(n, ast.Assign) and len(n.targets) == 1 and isinstance(n.targets[0], ast.Name) and n.targets[0].id == e.id:
-                    return rate_name(f, n.value)
-            return e.id
-        if isinstance(e, ast.Subscript) and isinstance(e.slice, ast.Constant):
-            return str(e.slice.value)
-        if isinstance(e, ast.Attribute):
-            return e.attr
-        return norm(e)
+    def rate_name(t) -> str:
+        """Name of the rate a term denotes: a parameter name, an attribute, or the constant key of `d["key"]`."""
+        t = unobj(t)
+        if t[0] == "name":
+            return t[1]
+        if t[0] == "idx" and t[2][0] == "const":
+            return str(t[2][1])
+        if t[0] == "attr":
+            return t[2]
+        return sh(t, 40)
 
     for f, neg, pos in ((s1, "epsilon_prime", "epsilon"), (s2, "p_false_neg", "p_false_pos")):
         ok = False
         got = None
-        for n in own_nodes(f):
-            if isinstance(n, ast.Call) and (dotted(n.func) or "").endswith("where") and len(n.args) == 3 and isinstance(n.args[0], ast.Compare):
-                c = n.args[0]
-                if isinstance(c.ops[0], ast.Eq) and norm(c.comparators[0]) == "1":
-                    got = (rate_name(f, n.args[1]), rate_name(f, n.args[2]))
-                    ok = got == (neg, pos)
+        for l in S(E, f).calls("where"):
+            m_ = is_(l.value, "np.where(Q_b == 1, Q_neg, Q_pos)")
+            if m_ is not None:
+                got = (rate_name(m_["Q_neg"]), rate_name(m_["Q_pos"]))
+                ok = got == (neg, pos)
         rep.check(ok, "SIB", f"{f.short}|flip=where(bit==1,false-neg,false-pos)", f"a measured 1 flips with {neg}, a measured 0 with {pos}", f"{f.short}: np.where(bit == 1, {got[0] if got else '?'}, {got[1] if got else '?'}) -- a measured 1 must flip with the false-negative rate ({neg}) and a measured 0 with the false-positive rate ({pos})", E.where(f))
     scm = P.module("pulser_simulation.simconfig")
     diff = P.fold(scm, scm.assigns["_DIFF_NOISE_PARAMS"])
